@@ -57,6 +57,18 @@ pub fn def_str(tcx: TyCtxt<'_>, d: DefId) -> String {
     tcx.def_path_str(d)
 }
 
+/// the crate's unchecked identity cast, whatever it is called: an `unsafe fn` of the analysed library with exactly two type parameters
+pub fn is_identity_cast(tcx: TyCtxt<'_>, d: DefId, n_type_args: usize) -> bool {
+    if n_type_args != 2 || tcx.crate_name(d.krate).as_str() != "ndarray_interp" {
+        return false;
+    }
+    if !matches!(tcx.def_kind(d), rustc_hir::def::DefKind::Fn) {
+        return false;
+    }
+    let sig = tcx.fn_sig(d).instantiate_identity().skip_norm_wip();
+    sig.safety().is_unsafe()
+}
+
 pub fn crate_of(tcx: TyCtxt<'_>, d: DefId) -> String {
     tcx.crate_name(d.krate).to_string()
 }
